@@ -6,6 +6,7 @@ import (
 	"fmt"
 	"os"
 	"strings"
+	"sync/atomic"
 	"time"
 
 	pb "github.com/AliceO2Group/Control/core/protos"
@@ -72,6 +73,13 @@ func c06Scenarios(c *vlib.Ctx) []c06Scenario {
 	}
 	out = append(out, c06Scenario{Kind: "create-fail", Stage: "configure-error", Hooks: "pending-call", NTasks: 2, Kill: "killed"})
 	out = append(out, c06Scenario{Kind: "create-fail", Stage: "configure-error", Hooks: "tasks", NTasks: 2, Kill: "killed"})
+	// a call started at before_CONFIGURE and awaited at a later weight of the same moment, with the
+	// critical hook failing in between: the call is pending when the creation is abandoned
+	out = append(out, c06Scenario{Kind: "create-fail", Stage: "hook-failure", Hooks: "pending-call-same-moment", NTasks: 2, Kill: "killed"})
+	// the master refuses the first KILL call only: every other task must still be asked to terminate
+	out = append(out, c06Scenario{Kind: "destroy", State: "CONFIGURED", Kill: "refused-first", Hooks: "none", NTasks: 3})
+	out = append(out, c06Scenario{Kind: "destroy", State: "RUNNING", Force: true, Kill: "refused-first", Hooks: "none", NTasks: 4})
+	out = append(out, c06Scenario{Kind: "create-fail", Stage: "configure-error", Hooks: "none", NTasks: 3, Kill: "refused-first"})
 	if c.Tier == "thorough" {
 		for _, st := range states {
 			for _, k := range []string{"ignore", "refused"} {
@@ -147,6 +155,8 @@ func c06Run(c *vlib.Ctx, idx int, sc c06Scenario) {
 	case "pending-call":
 		// started at before_CONFIGURE, awaited at a point that is never reached
 		wf.Calls = append(wf.Calls, coresim.CallSpec{Name: "pc", Func: "verif.Slow()", Trigger: "before_CONFIGURE", Await: "after_STOP_ACTIVITY+50", Timeout: "3s", Critical: false, Vars: map[string]string{"verif_tag": "pending", "verif_sleep_ms": "20"}})
+	case "pending-call-same-moment":
+		wf.Calls = append(wf.Calls, coresim.CallSpec{Name: "pc", Func: "verif.Slow()", Trigger: "before_CONFIGURE", Await: "before_CONFIGURE+20", Timeout: "3s", Critical: false, Vars: map[string]string{"verif_tag": "pending", "verif_sleep_ms": "20"}})
 	}
 	if sc.Kind == "create-fail" && sc.Stage == "hook-failure" {
 		wf.Calls = append(wf.Calls, coresim.CallSpec{Name: "badhook", Func: "verif.Fail()", Trigger: "before_CONFIGURE+10", Critical: true, Vars: map[string]string{"verif_tag": "fail"}})
@@ -202,6 +212,15 @@ func c06Run(c *vlib.Ctx, idx int, sc c06Scenario) {
 			return "ignore"
 		}
 		return "killed"
+	}
+	var refusedKillOf atomic.Value // task id whose KILL call was refused (refused-first)
+	if sc.Kill == "refused-first" {
+		s.Master.OnCall = func(call *scheduler.Call, m *simmesos.Master) *simmesos.CallFault {
+			if call.GetType() == scheduler.Call_KILL && refusedKillOf.CompareAndSwap(nil, call.GetKill().GetTaskID().Value) {
+				return &simmesos.CallFault{HTTPStatus: 400}
+			}
+			return nil
+		}
 	}
 	if sc.Kill == "refused" {
 		s.Master.OnCall = func(call *scheduler.Call, m *simmesos.Master) *simmesos.CallFault {
@@ -334,9 +353,21 @@ func c06Run(c *vlib.Ctx, idx int, sc c06Scenario) {
 				// nothing prevents this destroy from being honoured
 				fail("DESTROY-ERROR", "DestroyEnvironment failed although release and kill were possible: "+grpcMsg(derr))
 			}
-			return // an error return makes no promise about what is left
+			if sc.Kill != "refused-first" {
+				return // an error return makes no promise about what is left
+			}
+			// one KILL was refused: an error is fine; if the environment is gone all the same, the
+			// other tasks must have been asked to terminate
+			if ids, lerr := listEnvIDs(s); lerr != nil || ids[envID] != "" {
+				c.Count("destroys_refused_environment_kept", 1)
+				return
+			}
+		} else {
+			c.Count("destroys_ok", 1)
 		}
-		c.Count("destroys_ok", 1)
+		if sc.Kill == "refused-first" {
+			c.Count("destroys_with_one_refused_kill", 1)
+		}
 		if sc.Kill == "refused" && !sc.KeepTasks {
 			fail("DESTROY-OK-BUT-KILL-REFUSED", "DestroyEnvironment returned OK although the master refused every KILL call")
 		}
@@ -344,6 +375,31 @@ func c06Run(c *vlib.Ctx, idx int, sc c06Scenario) {
 
 	// ---- post-conditions ----
 	waitQuiet(s, 300*time.Millisecond, 10*time.Second)
+	if sc.Kill == "refused-first" {
+		// A refused call makes the client drop the subscription, and until it is re-established every
+		// further call fails in the client: the master may have seen no KILL at all. What the core
+		// could not kill must stay known to it, so that the next cleanup finds it: once the core is
+		// subscribed again, one cleanup request must reach every task that is still alive.
+		if refusedKillOf.Load() == nil {
+			c.Inconclusive(fmt.Sprintf("scenario %d: no KILL call was seen", idx))
+			return
+		}
+		dl := time.Now().Add(60 * time.Second)
+		for time.Now().Before(dl) && !s.Master.Subscribed() {
+			time.Sleep(50 * time.Millisecond)
+		}
+		if !s.Master.Subscribed() {
+			c.Inconclusive(fmt.Sprintf("scenario %d: the core did not subscribe again within 60 s after the refused KILL", idx))
+			return
+		}
+		waitQuiet(s, 500*time.Millisecond, 10*time.Second)
+		ctx, cancel := coresim.Ctx(apiTimeout)
+		_, cerr := s.Client.CleanupTasks(ctx, &pb.CleanupTasksRequest{})
+		cancel()
+		obs.Steps = append(obs.Steps, fmt.Sprintf("CleanupTasks err=%q", truncate(grpcMsg(cerr), 200)))
+		c.Count("cleanups_after_refused_kill", 1)
+		waitQuiet(s, 300*time.Millisecond, 10*time.Second)
+	}
 	c.Count("postcondition_checks", 1)
 	ids, err := listEnvIDs(s)
 	if err != nil {
@@ -384,6 +440,13 @@ func c06Run(c *vlib.Ctx, idx int, sc c06Scenario) {
 			// every task it ever owned must have been asked to terminate. Tasks that never became
 			// owned are exempt; a launched task becomes owned as soon as the offers round succeeded,
 			// which is the case in every scenario here except "undeployable" (nothing launched).
+			if s.Master.Life() > 1 && sc.Kill == "killed" {
+				// the core re-subscribed although the scenario injects no transport fault: a scheduler call
+				// failed for a reason outside the scenario (seen once under extreme load), and calls made
+				// while the client was disconnected were never sent. Not a verdict on the property.
+				c.Inconclusive(fmt.Sprintf("scenario %d: the core re-subscribed during a scenario without transport faults; task %s got no KILL", idx, t.RolePath))
+				return
+			}
 			fail("NOT-KILLED", fmt.Sprintf("task %s (%s, mesos %s) was owned by the environment and never received a KILL", t.RolePath, t.ID, t.Mesos))
 		}
 		if sc.KeepTasks && t.KillAsked > 0 {
@@ -447,7 +510,7 @@ func c06Run(c *vlib.Ctx, idx int, sc c06Scenario) {
 		}
 	}
 	// pending calls cancelled: no goroutine may be left blocked in Call.Start after the environment is gone
-	if sc.Hooks == "pending-call" && !dumped {
+	if (sc.Hooks == "pending-call" || sc.Hooks == "pending-call-same-moment") && !dumped {
 		time.Sleep(300 * time.Millisecond)
 		dump := s.DumpGoroutines()
 		c.Count("pending_call_dumps", 1)
